@@ -151,6 +151,17 @@ pub fn handle(w: &[&str]) -> String {
             let Some(bs) = parse_hex(h) else { return "bad-op".into() };
             huff_dec(&bs)
         }
+        // huff decn <hex unit> <count>: a Huffman string literal made of `count` copies of the unit (inputs too long
+        // for a case line: the decoder's u32 bit positions, C06); answer: `ok len=<decoded bytes>` / `err <kind>`
+        ["huff", "decn", h, n] => {
+            let (Some(unit), Ok(n)) = (parse_hex(h), n.parse::<usize>()) else { return "bad-op".into() };
+            let payload: Vec<u8> = unit.iter().cycle().take(unit.len() * n).cloned().collect();
+            let r = huff_dec(&payload);
+            match r.strip_prefix("ok ") {
+                Some(x) => format!("ok len={}", if x == "-" { 0 } else { x.len() / 2 }),
+                None => r.split(' ').take(2).collect::<Vec<_>>().join(" "),
+            }
+        }
         ["huff", "enc", h] => {
             let Some(s) = parse_hex(h) else { return "bad-op".into() };
             guarded(|| match huff_enc(&s) {
